@@ -144,8 +144,9 @@ def render(nbest, fmt):
     return printer().to_string(nbest, format=fmt)
 
 
-def check_formats(st, nbest, lang, formats, base, count=True):
-    """nbest: list (sentences) of lists of ScoredTree. Every format must decode to the projection of the same derivations."""
+def check_formats(st, nbest, lang, formats, base, count=True, skip=()):
+    """nbest: list (sentences) of lists of ScoredTree. Every format must decode to the projection of the same derivations.
+    skip: 1-based sentence numbers whose content is not compared (failure placeholders); numbering and renderability still are."""
     set_lang(lang)
     flat = [(si, ti, stree) for si, trees in enumerate(nbest, 1) for ti, stree in enumerate(trees, 1)]
 
@@ -171,6 +172,8 @@ def check_formats(st, nbest, lang, formats, base, count=True):
                     bad(fmt, f'records are numbered {[r[0] for r in recs]}, sentences are {[si for si, _, _ in flat]}', kind='numbering')
                     continue
                 for (si, ti, (tree, score)), (rid, lp, body) in zip(flat, recs):
+                    if si in skip:
+                        continue
                     if lp != '{:.8f}'.format(score):
                         bad(fmt, f'record header carries log probability {lp}, result has {score}', kind='score')
                     if fmt == 'auto':
@@ -191,6 +194,8 @@ def check_formats(st, nbest, lang, formats, base, count=True):
                     bad(fmt, f'records are numbered {[r[0] for r in recs]}', kind='numbering')
                     continue
                 for (si, ti, (tree, score)), (rid, lp, rows) in zip(flat, recs):
+                    if si in skip:
+                        continue
                     leaves = tree.leaves
                     heads = D.heads_from_flags(tree)
                     exp_rows = [dict(id=i + 1, word=D.esc(word_of(l)), lemma=l.token.get('lemma', '_'), pos=l.token.get('pos', '_'), head=heads[i], cat=K.text(l.cat))
@@ -213,6 +218,8 @@ def check_formats(st, nbest, lang, formats, base, count=True):
                     bad(fmt, f'records are numbered {[(a, b) for a, b, _ in recs]}', kind='numbering')
                     continue
                 for (si, ti, (tree, score)), (_, _, got) in zip(flat, recs):
+                    if si in skip:
+                        continue
                     exp = exp_xml(tree)
                     if normw(got) != normw(exp):
                         bad(fmt, f'decodes to {normw(got)} but the derivation is {normw(exp)}', kind=diff_kind(got, exp))
@@ -222,6 +229,8 @@ def check_formats(st, nbest, lang, formats, base, count=True):
                     bad(fmt, f'records are numbered {[(a, b) for a, b, _, _ in recs]}', kind='numbering')
                     continue
                 for (si, ti, (tree, score)), (_, _, lp, got) in zip(flat, recs):
+                    if si in skip:
+                        continue
                     exp = exp_json(tree)
                     if lp != score:
                         bad(fmt, f'log_prob {lp} differs from the result score {score}', kind='score')
@@ -233,6 +242,8 @@ def check_formats(st, nbest, lang, formats, base, count=True):
                     bad(fmt, f'{len(sents)} sentences for {len(nbest)}', kind='numbering')
                     continue
                 for si, (trees, sd) in enumerate(zip(nbest, sents)):
+                    if si + 1 in skip:
+                        continue
                     if len(sd['ccgs']) != len(trees):
                         bad(fmt, f'sentence {si}: {len(sd["ccgs"])} ccg elements for {len(trees)} trees', kind='numbering')
                         continue
@@ -259,6 +270,8 @@ def check_formats(st, nbest, lang, formats, base, count=True):
                     bad(fmt, f'sentences are numbered {[r[0] for r in recs]}', kind='numbering')
                     continue
                 for si, (trees, (rid, words, got_trees)) in enumerate(zip(nbest, recs)):
+                    if si + 1 in skip:
+                        continue
                     if len(got_trees) != len(trees):
                         bad(fmt, f'{len(got_trees)} math elements for {len(trees)} trees', kind='numbering')
                         continue
@@ -274,6 +287,8 @@ def check_formats(st, nbest, lang, formats, base, count=True):
                     bad(fmt, f'clauses are numbered {[r[0] for r in recs]}', kind='numbering')
                     continue
                 for (si, ti, (tree, score)), (_, got) in zip(flat, recs):
+                    if si in skip:
+                        continue
                     exp = exp_prolog_en(tree) if lang == 'en' else exp_prolog_ja(tree)
                     if normw(got) != normw(exp):
                         bad(fmt, f'decodes to {normw(got)} but the derivation is {normw(exp)}', kind=diff_kind(got, exp))
